@@ -88,6 +88,9 @@ import "fmt"
 
 // Say prints its argument.
 func Say(s string) { fmt.Println("CALL Say", s) }
+
+// Count takes a number.
+func Count(n int) { fmt.Println("CALL Count", n) }
 '''
 
 TOOLS = '''package tools
@@ -311,6 +314,20 @@ def build_scenarios(rng, gen, quick):
     A(scenario("keep-type-error", keep=True, mutation="type-error"))
     A(scenario("keep-syntax-body", keep=True, mutation="syntax-body"))
     A(scenario("keep-go-fail:list", keep=True, plan="fail:list"))
+    # D2: -keep x every kind of failing command line x cached / rebuilding route: the generated file is there exactly when
+    # generation was reached, and stdout / exit status are those of the compiled magefile itself for these words
+    cmdlines = [("unknown-first", ["nosuchtarget"], None), ("unknown-after-valid", ["build", "nosuchtarget"], None),
+                ("unknown-after-args", ["say", "hi", "nosuchtarget", "build"], None), ("missing-arg", ["build", "say"], None),
+                ("surplus-arg", ["say", "a", "b"], None), ("unconvertible-arg", ["build", "count", "abc"], None),
+                ("valid-args", ["count", "3", "say", "x"], None), ("failing-target", ["say", "x", "build"], "error"),
+                ("panicking-target", ["build"], "panic"), ("exiting-target", ["build", "say", "never"], "osexit"),
+                ("help-unknown", ["-h", "nosuchtarget"], None), ("list", ["-l"], None)]
+    for cname, cargs, cfail in cmdlines:
+        for route, kw in (("default", {}), ("hash-first", {"hashfast": True}), ("hash-cached", {"hashfast": True, "prewarm": True})):
+            if quick and route == "hash-first" and cname not in ("unknown-first", "unknown-after-valid", "failing-target"):
+                continue
+            A(scenario("keep-cl-%s-%s" % (cname, route), keep=True, args=cargs, fail=cfail, **kw))
+        A(scenario("cl-%s" % cname, args=cargs, fail=cfail))
     # E: hash mode, -f, -compile
     A(scenario("hash-first", hashfast=True))
     A(scenario("hash-cached", hashfast=True, prewarm=True))
@@ -847,9 +864,13 @@ def main_paths(sc):
             "named": ["magefiles/" + MAIN]}[sc["layout"]]   # with -d magefiles the start directory is not the magefile directory
 
 
-def oracle_run(sc, ob, gen_hashes, ref_ob):
+def oracle_run(sc, ob, gen_hashes, ref_ob, binref=None):
     """list of violated clauses (strings) for one complete run"""
     bad = []
+    if binref is not None and binref[1] is not None and (ob["rc"], ob["out"]) != binref:
+        bad.append("mage %s: exit %s stdout %r, but the compiled magefile itself gives exit %s stdout %r for these words "
+                   "(the targets in front of a failure run, the status is the program's)" % (
+                       " ".join(sc["args"]), ob["rc"], ob["out"][:100], binref[0], (binref[1] or "")[:100]))
     expect = dict(ob["before_h"])
     lo = sc["leftover"]
     if lo and lo["kind"] == "file":
@@ -879,9 +900,11 @@ def oracle_run(sc, ob, gen_hashes, ref_ob):
             if gen_hashes and after[p] not in gen_hashes:
                 bad.append("with -keep the file left is not the generated file (differs from the one another run generates): %s" % p)
             after.pop(p)
-        ran = "CALL " in ob["out"]
+        # with -keep the generated file stays whatever the outcome of the run, once generation was reached: i.e. whenever the
+        # compiled magefile got to run (or to be started) and was not simply taken from the cache
+        ran = "CALL " in ob["out"] or stage_of(ob) in ("SDone", "SExec")
         if ran and not kept and not (sc["hashfast"] and sc["prewarm"] and not sc["force"]):
-            bad.append("with -keep, after a run that compiled and ran the targets, no generated file is in the directory")
+            bad.append("with -keep, after a run that got as far as the compiled magefile (exit %s), no generated file is in the directory" % ob["rc"])
     if after != expect:
         diff = sorted(k for k in set(after) | set(expect) if after.get(k) != expect.get(k))
         if sc["enospc"] is not None and all(k in main_paths(sc) for k in diff):
@@ -1200,7 +1223,17 @@ def run(ctx):
         env = {"VERIF_FAIL": sc["fail"]} if sc["fail"] else {}
         r = mage.run(d, list(sc["args"]), env=env, exe=outb)
         tcache[key] = r["rc"]
+        tcache[("out",) + key] = r["out"]
         return r["rc"]
+
+    def bin_ref(sc):
+        """(exit status, stdout) of the compiled magefile itself for this command line, or None where it does not get to run"""
+        if (sc["mutation"] or sc["plan"] or sc["compile"] or sc.get("envfault") or sc["enospc"] is not None or sc["crash"] or sc["special"]
+                or any(a.startswith("-") for a in sc["args"])):
+            return None
+        rc = tcode_of(sc)
+        lay = "mfdir" if sc["layout"] == "named" else sc["layout"]
+        return (rc, tcache.get(("out", lay, sc["with_import"], tuple(sc["args"]), sc["fail"])))
 
     # ---- scenarios
     if ctx.replay and ctx.replay.get("case") and ctx.replay["case"].get("scenario"):
@@ -1331,7 +1364,7 @@ def run(ctx):
                     ctx.violation({"kind": "oracle", "clause": c, "scenario": sc["id"]}, case=case)
         else:
             comparable = sc["layout"] == "flat" and sc["with_import"] and not sc["mutation"] and not sc["compile"]   # -compile: the binary's name is in the text
-            for c in oracle_run(sc, ob, gen_hashes if comparable else None, ref_ob):
+            for c in oracle_run(sc, ob, gen_hashes if comparable else None, ref_ob, bin_ref(sc)):
                 ctx.violation({"kind": "oracle", "clause": c, "scenario": sc["id"]}, case=case)
         lists = lists_for(sc)
         # the bytes the template writes for THIS package (their content is C18's subject, not C09's)
